@@ -368,7 +368,89 @@ def cmp_true_when(t, env):
     c, m = affine(('op', 'Sub', t[2], t[3]))
     v = c
     for k, (co, a) in m.items():
-        if k not in env:
+        if k in env:
+            v += co * env[k]
+        elif isinstance(a, tuple) and a[0] == 'k' and a[2] is not None:
+            v += co * a[2]
+        elif isinstance(a, tuple) and a[0] == 'v' and a[1] in env:
+            v += co * env[a[1]]
+        else:
             return None
-        v += co * env[k]
     return ops[t[1]](v, 0)
+
+
+# ---------------------------------------------------------------- reaching definitions (block granularity + in-block order)
+def reaching_defs(body, local, blk, idx='term'):
+    """Whole definitions of `local` that may reach position (blk, idx): list of (block, idx, kind, obj)."""
+    defs = body.defs().get(local, [])
+    if not defs:
+        return []
+    def before(i, j):
+        # is stmt index i strictly before j within one block ('term' is last)
+        if j == 'term':
+            return i != 'term'
+        if i == 'term':
+            return False
+        return i < j
+    out = []
+    defblocks = {}
+    for d in defs:
+        defblocks.setdefault(d[0], []).append(d)
+    # last def in the same block before idx kills everything else
+    same = [d for d in defblocks.get(blk, []) if before(d[1], idx)]
+    if same:
+        same.sort(key=lambda d: (10**9 if d[1] == 'term' else d[1]))
+        return [same[-1]]
+    for db, ds in defblocks.items():
+        # the last def of the block is the one that leaves it
+        ds2 = sorted(ds, key=lambda d: (10**9 if d[1] == 'term' else d[1]))
+        last = ds2[-1]
+        others = set(defblocks) - {db}
+        # does control reach blk from db without passing another defining block?
+        r = body.reach_after(db, cut_blocks=others)
+        if blk in r:
+            out.append(last)
+        elif db == blk:
+            # defined later in the same block: reaches only around a cycle, covered by reach_after
+            pass
+    return out
+
+
+def var_defs_terms(body, local):
+    out = []
+    for bi, si, kind, obj in body.defs().get(local, []):
+        t = body.call_term(bi, obj) if kind == 'call' else body.rvalue_term(obj['r'], 0, bi)
+        out.append((bi, si, t))
+    return out
+
+
+# ---------------------------------------------------------------- closure inlining
+def inline_closures(facts, term, depth=0):
+    """Replace closure aggregates by ('lam', closure_path, [param names], body_term) with captured places substituted."""
+    def fn(x):
+        if x[0] == 'agg' and x[1] == 'closure' and x[2] in facts.bodies and depth < 4:
+            cb = facts.bodies[x[2]]
+            caps = [c['name'] for c in cb.j.get('captures', [])]
+            ops = x[3]
+            ret = cb.local_term(0, expand=True)
+            ret = expand_vars(cb, ret)
+
+            def sub(y):
+                if y[0] == 'f' and is_var(y[1]) and y[1][2] == 1 and y[2] in caps and caps.index(y[2]) < len(ops):
+                    return ops[caps.index(y[2])]
+                return None
+            ret = rewrite(ret, sub)
+            params = [cb.locals[i]['names'][0] if cb.locals[i]['names'] else '_%d' % i for i in range(2, cb.j['arg_count'] + 1)]
+            return ('lam', x[2], params, inline_closures(facts, ret, depth + 1))
+        return None
+    return rewrite(term, fn)
+
+
+def strip_convs(t):
+    def fn(x):
+        if x[0] == 'conv':
+            return x[2]
+        if x[0] == 'cast' and 'IntToInt' in x[1]:
+            return x[2]
+        return None
+    return rewrite(t, fn)
